@@ -1,4 +1,5 @@
 import Driver.Srv
+import Driver.Rd
 /-! `driver <suite>`: reads a transcript on stdin, prints the model's `obs` line for every `op` line. -/
 
 partial def loopSrv (h : IO.FS.Stream) (out : IO.FS.Stream) (st : Driver.Srv.St) : IO Unit := do
@@ -10,9 +11,19 @@ partial def loopSrv (h : IO.FS.Stream) (out : IO.FS.Stream) (st : Driver.Srv.St)
   | none => pure ()
   loopSrv h out st'
 
+partial def loopRd (h : IO.FS.Stream) (out : IO.FS.Stream) (st : Driver.Rd.St) : IO Unit := do
+  let line ← h.getLine
+  if line.isEmpty then return ()
+  let (st', o) := Driver.Rd.handle st line
+  match o with
+  | some l => out.putStrLn l
+  | none => pure ()
+  loopRd h out st'
+
 def main (args : List String) : IO UInt32 := do
   let stdin ← IO.getStdin
   let stdout ← IO.getStdout
   match args with
   | ["srv"] => loopSrv stdin stdout {}; return 0
+  | ["reader"] => loopRd stdin stdout {}; return 0
   | _ => IO.eprintln "usage: driver <suite>"; return 2
